@@ -460,6 +460,10 @@ def run(chk, prog):
     # ------------------------------------------------------------------ WIRE: the UDP header codecs agree on the header layout
     shared.rule_wire(chk, prog, rule="WIRE", which=("UDP5", "ADDR"))
 
+    # ------------------------------------------------------------------ UDP-LABEL: datagrams of a listener-side session keep the session target
+    from . import c10 as _c10
+    _c10.rule_session_label(chk, prog, rule="UDP-LABEL")
+
     # ------------------------------------------------------------------ MAP: the transparent-proxy destination is normalised exactly
     shared.rule_addr_map(chk, prog, "MAP", "original destination taken from a redirected packet (and every peer address)")
 
